@@ -371,7 +371,7 @@ class Facts:
                 continue
             seen.add(x)
             for c in self.children(x):
-                out.append(c)
+                out.append(self.inlined(c) if c.kind == "closure" else c)
                 st.append(c.id)
         return out
 
@@ -511,6 +511,29 @@ def _shift_term(t, off_l, off_b):
     return r
 
 
+_HEAVY = {}
+
+
+def heavy_types(F):
+    """types whose public methods are operations in their own right (never inlined): the engine, the database struct, the
+    table types, the RPC server"""
+    k = id(F)
+    if k not in _HEAVY:
+        hv = set()
+        try:
+            import roles
+            hv.add(roles.database_struct(F)["name"])
+            hv |= set(roles.table_types(F))
+        except Exception:
+            pass
+        for a in F.adts.values():
+            n = a["name"]
+            if n.endswith("BRC20ProgEngine") or n.endswith("RpcServer") or n.endswith("ConfigDatabase") or n.endswith("SharedData"):
+                hv.add(n)
+        _HEAVY[k] = hv
+    return _HEAVY[k]
+
+
 def is_private_helper(g):
     """a private, non-anchor, non-trait method / associated function: the kind of helper an extract-method refactoring creates"""
     if g is None or not g.blocks or g.kind not in ("method", "fn") or g.j.get("trait") or g.j.get("in_trait"):
@@ -528,7 +551,9 @@ def inline_private_helpers(F, fn, depth=2, max_blocks=4000):
     methods, trait methods and recursive calls are kept as calls."""
     import copy
     base_ty = (fn.j.get("self_ty") or "").split("<")[0]
-    if not base_ty or not fn.blocks:
+    if not base_ty and fn.j.get("root") and fn.j["root"] in F.fns:
+        base_ty = (F.fns[fn.j["root"]].j.get("self_ty") or "").split("<")[0]     # a closure: the type of the method it sits in
+    if not fn.blocks:
         return fn
     anchors = rule_names()
     j = copy.deepcopy(fn.j)
@@ -547,11 +572,16 @@ def inline_private_helpers(F, fn, depth=2, max_blocks=4000):
             g = F.fns.get(cid) if cid else None
             if g is None or not g.blocks or g.id == fn.id or g.kind not in ("method", "fn"):
                 continue
-            same_type = (g.j.get("self_ty") or "").split("<")[0] == base_ty
-            same_file_free_fn = not g.j.get("self_ty") and g.kind == "fn" and g.loc.get("f") == fn.loc.get("f")
-            if not (same_type or same_file_free_fn) or g.j.get("trait") or g.j.get("in_trait"):
+            if g.j.get("trait") or g.j.get("in_trait") or (g.j.get("method") or g.name.split("::")[-1]) in anchors:
                 continue
-            if (g.j.get("vis") or "") == "Public" or (g.j.get("method") or g.name.split("::")[-1]) in anchors:
+            g_ty = (g.j.get("self_ty") or "").split("<")[0]
+            same_type = g_ty == base_ty
+            same_file_free_fn = not g.j.get("self_ty") and g.kind == "fn" and g.loc.get("f") == fn.loc.get("f")
+            private_helper = (same_type or same_file_free_fn) and (g.j.get("vis") or "") != "Public"
+            # methods of small record types (not the engine, the database struct or a table type), whatever their visibility:
+            # logic moved onto the record it concerns (`info.require_next_tx(..)`) is still the caller's logic
+            light_method = bool(g_ty) and g_ty not in heavy_types(F) and len(g.blocks) <= 120
+            if not (private_helper or light_method):
                 continue
             if g.name in inlined and _round > 0 and any(x == g.name for x in inlined[-50:]) and len(inlined) > 200:
                 continue
